@@ -22,6 +22,7 @@ type Env struct {
 	pkg   *types.Package // scope for constants / types / pure functions
 	fn    *ssa.Function  // function whose locals/free variables are visible (nil at call sites)
 	depth int
+	freeLV map[string]*LValue // captured variables of a closure being called
 }
 
 func (e *Env) clone() *Env {
